@@ -787,6 +787,8 @@ func (ex *Exec) nondet(name string, t types.Type) V {
 		tm := ex.ts.Var("n_"+sanitize(name), sortStr)
 		if !p.ndSet[name] {
 			p.ndSet[name] = true
+			p.nondets = append(p.nondets, tm)
+			p.ndNames = append(p.ndNames, name)
 		}
 		return StrV{T: tm}
 	}
@@ -895,6 +897,9 @@ func (ex *Exec) showV(v V) string {
 		return "nil"
 	case *Term:
 		if x.IsConst() {
+			if x.Sort.K == SInt {
+				return fmt.Sprintf("f64:%d", math.Float64bits(float64(int64(x.Bits))))
+			}
 			return fmt.Sprintf("%s:%d", sortTag(x.Sort), x.Bits)
 		}
 		return "sym"
